@@ -32,10 +32,13 @@ class LiteSessionStore(SessionStore):
         return deviceIds
 
     def storeSession(self, recipientId, deviceId, sessionRecord):
-        self.deleteSession(recipientId, deviceId)
+        # delete and insert in ONE transaction: committing the delete first would lose the
+        # session if the process died before the insert was committed
+        q = "DELETE FROM sessions WHERE recipient_id = ? AND device_id = ?"
+        c = self.dbConn.cursor()
+        c.execute(q, (recipientId, deviceId))
 
         q = "INSERT INTO sessions(recipient_id, device_id, record) VALUES(?,?,?)"
-        c = self.dbConn.cursor()
         serialized = sessionRecord.serialize()
         c.execute(q, (recipientId, deviceId, buffer(serialized) if sys.version_info < (2,7) else serialized))
         self.dbConn.commit()
